@@ -31,7 +31,7 @@ THEOREMS = [NS + t for t in (
     'C08_frozen_value', 'C08_frozen_constant',
     'C08_preserves', 'C08_preserves_live', 'C08_output_live', 'C08_preserves_of_evaluatedAtTrim',
     'C08_wf', 'C08_persist', 'C08_persist_commutes', 'C08_error_iff',
-    'C08_trim_inv', 'C08_trimmed_engine', 'C08_preserves_inst',
+    'C08_trim_inv', 'C08_trimmed_engine', 'C08_preserves_inst', 'semOv_local', 'C08_preserves_drv',
     'C08_asWritten_counterexample', 'C08_asWritten_not_evaluatedAtTrim', 'C08_wf_dangling_counterexample')]
 DESIGN_REF = 'DESIGN.md §7 C08'
 RULE = ('random DAG workbooks (2-14 cells on one or two sheets, blank cells, range nodes incl. 2-D, ranges over formula '
@@ -40,10 +40,14 @@ RULE = ('random DAG workbooks (2-14 cells on one or two sheets, blank cells, ran
         'feed no output, inputs that are also outputs, inputs that depend on other inputs) x output lists of 1-3 nodes '
         '(formula cells, ranges, value cells) x starting configuration never / partly / fully evaluated (history of '
         'evaluate and set_value before the trim) x 3-4 cumulative rounds of writes to the inputs (cell by cell, or a '
-        'whole input range at once) x save format yml/json/pkl.  Deterministic core (seed independent): one fixed '
-        '8-node workbook (quick; three in thorough) x every input list of size 1-2 x every single output (thorough: '
-        'pairs too) x the three configurations.  A case is non-trivial when the trim succeeds and a written input is a '
-        'transitive precedent of an output that also has a precedent that is frozen.')
+        'whole input range at once) x save format yml/json/pkl.  Half of the random workbooks are FLOAT-valued: '
+        'non-dyadic inputs and written values (0.1+0.2, 1/3, sums of decimals, 16-17 significant digits), formulas '
+        '+ - /c SUM COUNT INDEX, and 1-2 threshold cells =X>c, =X=c, =IF(X>c,"hi","lo") with c the current value of X, '
+        'its 15-digit rounding or a neighbouring float, used as outputs (a last-bit change of a frozen or reloaded '
+        'value flips them).  Deterministic core (seed independent): one fixed float-valued 8-node workbook (quick; '
+        'three in thorough) x every input list of size 1 and (quick: every second) 2 x every single output (thorough: '
+        'pairs too) x the three configurations.  A case is non-trivial when a written input is (a precedent of) an '
+        'output that also has a formula precedent reading no other input — something the trim freezes.')
 ASSUMPTIONS = [
     'non-iterative mode, in-memory workbook without stored results; the trim is applied once, to a model that was not '
     'loaded from a file',
@@ -57,7 +61,7 @@ ASSUMPTIONS = [
 ]
 TRUSTED = ['modelled, not verified: openpyxl, networkx, ruamel.yaml/json/pickle codecs, the concrete formula '
            'evaluator of pycel (compared only on the generated language)']
-REQUIRED_BUCKETS = ['never:exh', 'partly:exh', 'fully:exh', 'never:leaf', 'partly:leaf', 'fully:leaf',
+REQUIRED_BUCKETS = ['never:exh', 'partly:exh', 'fully:exh', 'never:flt', 'partly:flt', 'fully:flt', 'never:leaf', 'partly:leaf', 'fully:leaf',
                     'never:buried', 'partly:buried', 'fully:buried', 'never:range', 'partly:range', 'fully:range']
 EXHAUSTIVE = False
 EXPLANATION = ('theorems: every workbook/input list/output list/engine state/assignment; correspondence: real '
@@ -82,6 +86,14 @@ def _tok(v):
     return core.enc_text(v) if isinstance(v, str) else core.enc(v)
 
 
+ONE_DEP = ('idx', 'divc', 'gt', 'eqc', 'ifgt')     # kinds whose args are [node, constants...]
+
+
+def _lit(tok):
+    """a numeric constant as written in a formula: shortest text that reads back as the same float"""
+    return repr(_py(tok))
+
+
 def _addr_of(nodes, j, sheet):
     a = nodes[j][1]
     s, _, coord = a.partition('!')
@@ -101,6 +113,18 @@ def formula_of(nodes, i):
         return '=' + '&"|"&'.join(ref(j) for j in args) + '&"|"'
     if kind == 'add':
         return f'={ref(args[0])}+{ref(args[1])}'
+    if kind == 'sub':
+        return f'={ref(args[0])}-{ref(args[1])}'
+    if kind == 'eq':
+        return f'={ref(args[0])}={ref(args[1])}'
+    if kind == 'divc':
+        return f'={ref(args[0])}/{_lit(args[1])}'
+    if kind == 'gt':
+        return f'={ref(args[0])}>{_lit(args[1])}'
+    if kind == 'eqc':
+        return f'={ref(args[0])}={_lit(args[1])}'
+    if kind == 'ifgt':
+        return f'=IF({ref(args[0])}>{_lit(args[1])},"hi","lo")'
     if kind == 'sum':
         return '=SUM(' + ','.join(ref(j) for j in args) + ')'
     if kind == 'cnt':
@@ -142,7 +166,7 @@ def deps_of(nodes):
         if n[0] == 'I':
             deps.append([])
         elif n[0] == 'F':
-            deps.append(list(n[3][:1]) if n[2] == 'idx' else list(n[3]))
+            deps.append(list(n[3][:1]) if n[2] in ONE_DEP else list(n[3]))
         else:
             deps.append(list(n[4]))
     return deps
@@ -318,6 +342,34 @@ def model_lines(case):
     return [' '.join(toks)]
 
 
+def _close(x, y):
+    if x.startswith('n:') and y.startswith('n:'):
+        a, b = core.dec(x), core.dec(y)
+        return abs(a - b) <= max(1, abs(a), abs(b)) / 10 ** 12
+    return False
+
+
+_UNDECIDED_OK = {'b:0', 'b:1', core.enc_text('hi'), core.enc_text('lo')}
+
+
+def same(impl_out, model_out):
+    """token-wise: equal; or both numbers within 1e-12 (the model computes in exact rationals, pycel in floats); or the
+    model answered `u` (a comparison whose exact operands tie within 1e-9) and pycel a logical / hi / lo"""
+    if impl_out == model_out:
+        return True
+    if impl_out is None or model_out is None:
+        return False
+    import re
+    ta, tb = re.split(r'([;~ ])', impl_out), re.split(r'([;~ ])', model_out)
+    if len(ta) != len(tb):
+        return False
+    for x, y in zip(ta, tb):
+        if x == y or (y == 'u' and x in _UNDECIDED_OK) or _close(x, y):
+            continue
+        return False
+    return True
+
+
 def governed(case):
     return True      # the property fixes every output value; status / cell map sections follow the code
 
@@ -398,7 +450,7 @@ def _ikind(case):
 
 
 def bucket(case):
-    return case['cfg'] + ':' + ('exh' if case.get('exh') else _ikind(case))
+    return case['cfg'] + ':' + ('exh' if case.get('exh') else 'flt' if case.get('flt') else _ikind(case))
 
 
 def nontrivial(case):
@@ -410,7 +462,7 @@ def nontrivial(case):
         written |= {i for i, _ in _round_writes(nodes, rnd)}
     for o in O:
         pre = clo[o]
-        if pre & written and any(nodes[j][0] == 'F' and j not in ic and not (clo[j] & ic) for j in pre):
+        if (pre | {o}) & written and any(nodes[j][0] == 'F' and not (clo[j] & ic) for j in pre):
             return True
     return False
 
@@ -435,12 +487,28 @@ def rand_value(rng, allow_none=True):
     return rng.choice(TEXTS)
 
 
+FLOATS = [0.1, 0.2, 0.3, 0.1 + 0.2, 1 / 3, 2 / 3, 0.7, 1.1, 2.2, 3.3, 0.1 + 0.7, 1.0000000000000002, 123.45600000000002,
+          4097.283318073775, 0.30000000000000004, 1e-3 + 2e-3, 19.99, 0.07, 5.0, 2.5, -0.1, -1 / 3, 100 / 7, 3.0]
+
+
+def rand_float(rng):
+    r = rng.random()
+    if r < 0.55:
+        return rng.choice(FLOATS)
+    if r < 0.8:
+        return rng.uniform(-50, 50)                 # 16-17 significant digits
+    if r < 0.9:
+        return round(rng.uniform(0, 100), 2) + round(rng.uniform(0, 1), 3)   # a sum of decimals
+    return float(rng.randint(-5, 20))
+
+
 def colname(c):
     return 'ABCDEFG'[c - 1]
 
 
-def gen_workbook(rng):
-    """-> nodes (topological).  Cells of Sheet1 row-major with the cells of an optional second sheet interleaved."""
+def gen_workbook(rng, flt=False):
+    """-> nodes (topological).  Cells of Sheet1 row-major with the cells of an optional second sheet interleaved.
+    flt: float-valued workbook (non-dyadic floats, + - /c SUM COUNT INDEX; no text rendering of numbers)"""
     ncols, nrows = rng.randint(1, 3), rng.randint(2, 4)
     order = [('Sheet1', c, r) for r in range(1, nrows + 1) for c in range(1, ncols + 1)]
     grids = {'Sheet1': (ncols, nrows)}
@@ -486,15 +554,20 @@ def gen_workbook(rng):
         cellnodes = [i for i, n in enumerate(nodes) if n[0] != 'R']
         if cellnodes and rng.random() < p_formula:
             rs = rects()
-            kind = rng.choice(['ref', 'cat', 'cat', 'add', 'add', 'sum', 'sum', 'cnt', 'idx'])
+            if flt:
+                kind = rng.choice(['ref', 'add', 'add', 'sub', 'sum', 'sum', 'divc', 'divc', 'cnt', 'idx'])
+            else:
+                kind = rng.choice(['ref', 'cat', 'cat', 'add', 'add', 'sub', 'eq', 'sum', 'sum', 'cnt', 'idx'])
             if kind == 'idx' and not rs:
-                kind = 'cat'
+                kind = 'add'
             if kind == 'ref':
                 args = [rng.choice(cellnodes)]
             elif kind == 'cat':
                 args = [rng.choice(cellnodes) for _ in range(rng.randint(1, 3))]
-            elif kind == 'add':
+            elif kind in ('add', 'sub', 'eq'):
                 args = [rng.choice(cellnodes), rng.choice(cellnodes)]
+            elif kind == 'divc':
+                args = [rng.choice(cellnodes), _tok(rng.choice([3, 7, 9, 11, 0.3]))]
             elif kind in ('sum', 'cnt'):
                 args = []
                 for _ in range(rng.randint(1, 3)):
@@ -507,7 +580,7 @@ def gen_workbook(rng):
                 args = [rn, rng.randint(1, nodes[rn][2]), rng.randint(1, nodes[rn][3])]
             nodes.append(['F', addr, kind, args])
         else:
-            nodes.append(['I', addr, _tok(rand_value(rng))])
+            nodes.append(['I', addr, _tok(rand_float(rng) if flt else rand_value(rng))])
         index[pos] = len(nodes) - 1
         placed.add(pos)
     rs = [x for x in rects() if x not in rng_index]
@@ -517,7 +590,7 @@ def gen_workbook(rng):
     return nodes
 
 
-def gen_pre(rng, nodes, cfg):
+def gen_pre(rng, nodes, cfg, flt=False):
     if cfg == 'never':
         return []
     n = len(nodes)
@@ -526,35 +599,71 @@ def gen_pre(rng, nodes, cfg):
         if rng.random() < 0.5:      # fully evaluated, then some value cells changed and everything evaluated again
             leaves = [i for i, x in enumerate(nodes) if x[0] == 'I']
             for i in rng.sample(leaves, min(len(leaves), rng.randint(1, 2))):
-                ops.append(['S', i, _tok(rand_value(rng))])
+                ops.append(['S', i, _tok(rand_float(rng) if flt else rand_value(rng))])
             ops += [['E', a] for a in range(n)]
         return ops
     ops = []
     leaves = [i for i, x in enumerate(nodes) if x[0] == 'I']
     for _ in range(rng.randint(1, 6)):
         if leaves and ops and rng.random() < 0.4:
-            ops.append(['S', rng.choice(leaves), _tok(rand_value(rng))])
+            ops.append(['S', rng.choice(leaves), _tok(rand_float(rng) if flt else rand_value(rng))])
         else:
             ops.append(['E', rng.randrange(n)])
     return ops
 
 
-def gen_io(rng, nodes):
+def add_thresholds(rng, nodes):
+    """float workbooks: append 1-2 cells that compare a numeric cell with a constant next to its current value (the value
+    itself, its 15-significant-digit rounding, or a neighbouring float): a last-bit change of the compared cell flips
+    them.  -> indices of the appended nodes"""
+    import math
+    numeric = [i for i, n in enumerate(nodes) if n[0] == 'F' and n[2] in ('add', 'sub', 'sum', 'divc', 'ref', 'idx')]
+    numeric = numeric or [i for i, n in enumerate(nodes) if n[0] == 'I']
+    comp = pyc.compiler_from(cells_of(nodes))
+    added = []
+    for k in range(rng.randint(1, 2)):
+        j = rng.choice(numeric)
+        try:
+            v = comp.evaluate(nodes[j][1])
+        except Exception:   # noqa
+            continue
+        if isinstance(v, bool) or not isinstance(v, (int, float)) or not math.isfinite(v) or not 1e-4 < abs(v) < 1e6:
+            continue
+        v = float(v)
+        c = rng.choice([v, float(f'{v:.15g}'), float(f'{v:.15g}'), math.nextafter(v, -math.inf),
+                        math.nextafter(v, math.inf)])
+        kind = rng.choice(['gt', 'eqc', 'ifgt'])
+        nodes.append(['F', f'Sheet1!H{k + 1}', kind, [j, _tok(c)]])
+        added.append(len(nodes) - 1)
+    return added
+
+
+def gen_io(rng, nodes, must_out=()):
     n = len(nodes)
     clo = closure(nodes)
     formulas = [i for i, x in enumerate(nodes) if x[0] == 'F']
     ranges = [i for i, x in enumerate(nodes) if x[0] == 'R']
     cand_out = formulas * 3 + ranges + list(range(n))
-    O = []
-    for _ in range(rng.choice([1, 1, 2, 3])):
-        o = rng.choice(cand_out)
+    O = list(must_out)
+    for _ in range(max(1 - len(O), rng.choice([0, 1, 1, 2]))):
+        # of three candidates the one with the most precedents: outputs that are functions of something
+        o = max((rng.choice(cand_out) for _ in range(3)), key=lambda x: len(clo[x]))
         if o not in O:
             O.append(o)
-    feeding = sorted(set().union(*[clo[o] for o in O]) | set(O))
+    strict = sorted(set().union(*[clo[o] for o in O]))
+    feeding = sorted(set(strict) | set(O))
     I = []
-    for _ in range(rng.choice([1, 1, 2, 2, 3])):
+    for k in range(rng.choice([1, 1, 1, 2, 2, 3])):
         r = rng.random()
-        if r < 0.70 and feeding:
+        if strict and (k == 0 and r < 0.9):
+            # the first input nearly always feeds an output, and preferably leaves a formula precedent of the outputs
+            # that does not read it (something to freeze)
+            i = rng.choice(strict)
+            for _ in range(6):
+                if any(nodes[j][0] == 'F' and j != i and i not in clo[j] for j in strict):
+                    break
+                i = rng.choice(strict)
+        elif r < 0.70 and feeding:
             i = rng.choice(feeding)         # leaf or buried cell or range that feeds an output (or is one)
         elif r < 0.85 and ranges:
             i = rng.choice(ranges)
@@ -565,30 +674,34 @@ def gen_io(rng, nodes):
     return I, O
 
 
-def gen_rounds(rng, nodes, I, O, nrounds):
+def gen_rounds(rng, nodes, I, O, nrounds, flt=False):
     w = writable(nodes, I, O)
+    val = (lambda i: rand_float(rng)) if flt else (
+        lambda i: rand_value(rng, allow_none=nodes[i][0] == 'I' or rng.random() < 0.1))
     rounds = [[]]
     for _ in range(nrounds):
         rnd = []
         rin = [i for i in I if nodes[i][0] == 'R' and all(m in w for m in nodes[i][4])]
         if rin and rng.random() < 0.4:
             rn = rng.choice(rin)
-            rnd = ['R', rn, [_tok(rand_value(rng, allow_none=nodes[m][0] == 'I')) for m in nodes[rn][4]]]
+            rnd = ['R', rn, [_tok(rand_float(rng) if flt else rand_value(rng, allow_none=nodes[m][0] == 'I'))
+                             for m in nodes[rn][4]]]
         elif w:
             for i in rng.sample(w, min(len(w), rng.randint(1, 3))):
                 # None over a buried input only now and then (known finding buried.blank masks the rest of the case)
-                rnd.append([i, _tok(rand_value(rng, allow_none=nodes[i][0] == 'I' or rng.random() < 0.1))])
+                rnd.append([i, _tok(val(i))])
         rounds.append(rnd)
     ic = input_cells(nodes, I)
-    extra = [[i, _tok(rand_value(rng, allow_none=False))] for i in ic if i not in w and nodes[i][0] == 'F']
+    extra = [[i, _tok(rand_float(rng) if flt else rand_value(rng, allow_none=False))]
+             for i in ic if i not in w and nodes[i][0] == 'F']
     return rounds, extra
 
 
 def _fixed():
     t = _tok
-    # A1=1, A2=2, A1:A2, B1=A1+A1 (reads a member directly), C1=SUM(A1:A2,B1), Z1=3, Z2=Z1+Z1 (buried), D1=C1+Z2
-    w1 = [['I', 'Sheet1!A1', t(1)], ['I', 'Sheet1!A2', t(2)], ['R', 'Sheet1!A1:A2', 2, 1, [0, 1]],
-          ['F', 'Sheet1!B1', 'add', [0, 0]], ['F', 'Sheet1!C1', 'sum', [2, 3]], ['I', 'Sheet1!C2', t(3)],
+    # A1=0.1, A2=0.2, A1:A2, B1=A1+A1 (reads a member directly), C1=SUM(A1:A2,B1), C2=1/3, C3=C2+C2 (buried), D1=C1+C3
+    w1 = [['I', 'Sheet1!A1', t(0.1)], ['I', 'Sheet1!A2', t(0.2)], ['R', 'Sheet1!A1:A2', 2, 1, [0, 1]],
+          ['F', 'Sheet1!B1', 'add', [0, 0]], ['F', 'Sheet1!C1', 'sum', [2, 3]], ['I', 'Sheet1!C2', t(1 / 3)],
           ['F', 'Sheet1!C3', 'add', [5, 5]], ['F', 'Sheet1!D1', 'add', [4, 6]]]
     # the recon workbook with a tail: A1=5, B1=4, B2=B1+B1, C1=A1+B2, C2=C1&"|"&B2&"|", blank D1, E1=D1&"|"
     w2 = [['I', 'Sheet1!A1', t(5)], ['I', 'Sheet1!B1', t(4)], ['F', 'Sheet1!B2', 'add', [1, 1]],
@@ -615,14 +728,17 @@ def exhaustive_cases(thorough):
     import itertools
     for w in _fixed()[:3 if thorough else 1]:
         n = len(w)
-        ins = [[i] for i in range(n)] + [list(p) for p in itertools.combinations(range(n), 2)]
+        pairs = [list(p) for p in itertools.combinations(range(n), 2)]
+        ins = [[i] for i in range(n)] + (pairs if thorough else pairs[::2])
         outs = [[o] for o in range(n)]
         if thorough:
             outs += [list(p) for p in itertools.combinations(range(n), 2)][::3]
         for cfg in ('never', 'partly', 'fully'):
             for k, (I, O) in enumerate(itertools.product(ins, outs)):
                 wr = writable(w, I, O)
-                rounds = [[], [[i, _tok(7 + j)] for j, i in enumerate(wr)], [[i, _tok('a')] for i in wr[:1]]]
+                flt = not any(x[0] == 'F' and x[2] == 'cat' for x in w)    # no text rendering of floats
+                rounds = [[], [[i, _tok(0.7 + j / 10 if flt else 7 + j)] for j, i in enumerate(wr)],
+                          [[i, _tok('a')] for i in wr[:1]]]
                 ic = input_cells(w, I)
                 extra = [[i, _tok(11)] for i in ic if i not in wr and w[i][0] == 'F']
                 yield {'cfg': cfg, 'fmt': ('yml', 'json', 'pkl')[k % 3] if thorough else 'json', 'nodes': w,
@@ -632,10 +748,9 @@ def exhaustive_cases(thorough):
 def cases(tier, rng):
     thorough = tier == 'thorough'
     yield from exhaustive_cases(thorough)
-    n = 3000 if thorough else 240
     cfgs = ['never', 'partly', 'fully']
     fmts = ['json', 'yml', 'pkl', 'json']
-    for k in range(n):
+    for k in range(3000 if thorough else 400):
         nodes = gen_workbook(rng)
         for _ in range(2 if thorough else 1):
             cfg = cfgs[k % 3]
@@ -643,3 +758,13 @@ def cases(tier, rng):
             rounds, extra = gen_rounds(rng, nodes, I, O, rng.randint(2, 3))
             yield {'cfg': cfg, 'fmt': fmts[(k // 3) % 4], 'nodes': nodes, 'I': I, 'O': O,
                    'pre': gen_pre(rng, nodes, cfg), 'rounds': rounds, 'extra': extra}
+    # float-valued workbooks with threshold outputs
+    for k in range(2400 if thorough else 600):
+        nodes = gen_workbook(rng, flt=True)
+        thr = add_thresholds(rng, nodes)
+        for _ in range(2 if thorough else 1):
+            cfg = cfgs[k % 3]
+            I, O = gen_io(rng, nodes, must_out=thr[:1] if rng.random() < 0.8 else ())
+            rounds, extra = gen_rounds(rng, nodes, I, O, rng.randint(2, 3), flt=True)
+            yield {'cfg': cfg, 'fmt': fmts[(k // 3) % 4], 'nodes': nodes, 'I': I, 'O': O, 'flt': 1,
+                   'pre': gen_pre(rng, nodes, cfg, flt=True), 'rounds': rounds, 'extra': extra}
